@@ -43,6 +43,9 @@ func toRune(value int64) rune {
 }
 
 func int64ToSeed(value int64) string {
+	if value <= 0 {
+		return "0" // the logarithm below is only defined for positive values
+	}
 	e := int(math.Floor(math.Log(float64(value)) / math.Log(radix)))
 	seed := make([]rune, 0, e)
 	posValue := int64(math.Pow(radix, float64(e)))
